@@ -20,16 +20,16 @@ CHECKS = {
             "byte-count polynomials, user hooks, nested calls expanded recursively, loops), overload bijection, target overwrite "
             "and framing rules over Serialize.h; NetworkBuffered length-prefix width at all six sites, FIFO queue discipline, "
             "lock typestate, tag/phase agreement; HostFence send-flush-receive-bump order. Delivery exactly-once/in-order through "
-            "MPI, alignment fast-path values and aggregation timing are not decided.",
-            "sibling wire-grammar comparison, CFG ordering and lock typestate rules over clang AST/CFG facts", "4 C17"),
+            "MPI, alignment fast-path values and aggregation timing are not decided. Added: the receive queue's head-of-queue tag hint is re-published on every path that removes the head and set by add() only for an empty queue.",
+            "sibling wire-grammar comparison, CFG ordering and lock typestate rules over clang AST/CFG facts; exit-reachable-without + guard-edge rules on the tag hint", "4 C17"),
     "C12": ("narrow: symbolic byte-offset interpretation of every .gr layout site (FileGraph fromMem/fromArrays/partFromFile/"
             "rawBlockSize, FileGraphWriter, OCFileGraph, OfflineGraph reader and writer, BufferedGraph, LC_CSR_Graph reader, "
             "dist-graph-convert) for both format versions and both parities of the edge count against the canonical layout; "
             "bytes-per-element vs buffer element type; version-word dispatch table; Endian.h mirror pairs under both byte "
             "orders. Decides the layout arithmetic and dispatch, not file contents: text parsers, transforming conversions and "
-            "value-level round trips are not decided.",
+            "value-level round trips are not decided. Added: raw transfer loops advance buffer pointer and remaining count together; fromMem takes edge data as present exactly when the mapping can hold it (bound evaluated symbolically).",
             "abstract interpretation of byte offsets as polynomials (LAYOUT) over clang AST/CFG facts, plus dispatch-table, "
-            "width and sibling rules", "8 C12"),
+            "width and sibling rules; partial-transfer loop rule; symbolic bound of the presence test", "8 C12"),
     "C16": ("narrow: exhaustive evaluation of structural necessary conditions on every ParallelSTL instantiation of the driver: "
             "block-claiming state only under its lock, disjoint blocks from the two ends, the no-leftover test consistent with "
             "the constructor's sentinels, serial clean-up of the leftover span on every other path, worker re-claims exactly on "
@@ -50,17 +50,17 @@ CHECKS = {
             "first/last maintenance, construction/destruction paired one-to-one with the size counter, concurrent and "
             "sequential variants use the same slot, singly linked lists link before publishing and unlink under a check, "
             "non-void members return on all paths (patterns included), optional's flag paired with construct/destroy. "
-            "Equivalence with the standard containers for all operation histories (value-level) is not decided.",
-            "link-pairing (LINK), counter pairing, sibling-variant agreement, return-on-all-paths over clang AST facts", "4 C14"),
+            "Equivalence with the standard containers for all operation histories (value-level) is not decided. Added: InsertBag's first element slot lies behind the block header for every element size (one instantiation per size 1..40, byte offsets by symbolic interpretation).",
+            "link-pairing (LINK), counter pairing, sibling-variant agreement, return-on-all-paths over clang AST facts; LAYOUT interpretation of newHeaderFromHeap per element size", "4 C14"),
     "C13": ("exhaustive evaluation of the shape obligations that make the disjoint-cover lemma (DESIGN.md C13) applicable, on "
             "every instantiation of the division routines found: ceil-div piece size; upper bound == lower bound with the part "
             "index advanced by one, both clamped by the same min(size); blockLower(id) == blockUpper(id-1); the two binary "
             "searches agree except for target and lower bound, the second starting at the first result; lower-bound search "
             "shape with monotone predicate; scale factors turned into a prefix sum; every stored boundary is an absolute node "
             "id (units of measure), empty parts copy the previous boundary. Overflow at the extremes and zero-weight corner "
-            "cases inside the search are not decided.",
+            "cases inside the search are not decided. Added: SpecificRange::block_pair (per-thread block clipped to a sub-range) returns the intersection or an empty range on every total preorder of block and request.",
             "sibling expression identity under substitution (SIB), units-of-measure (KIND ABS/REL), search-shape rules over "
-            "clang AST facts + paper lemma", "4 C13"),
+            "clang AST facts + paper lemma; abstract interpretation over a finite ordering domain (values only copied and compared)", "4 C13"),
     "C11": ("narrow: exhaustive classification of every non-local write in every body passed to do_all/on_each in the "
             "local-computation graph headers and FileGraph, and in every per-thread constructFrom builder, for the driver "
             "matrix: each is owner-indexed (loop element / own partition), owner CSR range of a prefix array, a slot claimed by "
@@ -81,17 +81,17 @@ CHECKS = {
             "to the re-read remaining space, free-list link order, allocate/deallocate sibling agreement on size class / "
             "threshold / header offset, count*sizeof at byte-allocator calls, lock discipline of shared heap state, "
             "double-checked singleton creation, moved-from objects disarmed, guarding static_asserts present. Disjointness "
-            "of live blocks as a value property and the offset split arithmetic are not decided.",
+            "of live blocks as a value property and the offset split arithmetic are not decided. Added: the per-thread offset allocator hands out the value fetch_add returned only after re-checking that very value against the capacity (check-then-act on an atomic).",
             "units-of-measure (KIND), link-order, sibling-agreement, lock typestate and null-contradiction rules over clang "
-            "AST facts", "4 C09"),
+            "AST facts; guard-edge rule on the rmw result", "4 C09"),
     "C07": ("narrow: decides structural necessary conditions of determinism on every CFG path of every deterministic-executor "
             "instantiation of the driver matrix (branches on constant-returning disabled managers pruned): inspect and commit "
             "phases barrier-separated in both directions; round flags obey the barrier-interval rule; new work merged by "
             "thread 0 strictly between barriers; mark-conflict winner decided by item-id comparison only; new-item order "
             "reads only (parent, count); no pointer-order, clock/rand or thread-id dependence of ids; push buffer transferred "
             "only after a conflict-free run with 1,2,.. numbering; commit or re-queue exactly once with reset. Does not decide "
-            "that merge/renumbering values are thread-count independent.",
-            "barrier-interval discipline (BAR), CFG guard/ordering rules, determinism taint scan over clang AST facts", "4 C07"),
+            "that merge/renumbering values are thread-count independent. Added: the holder handed to stealByCAS is one whose id was compared after it was (re)loaded, on every path.",
+            "barrier-interval discipline (BAR), CFG guard/ordering rules, determinism taint scan over clang AST facts; reaches-without rule per reload", "4 C07"),
     "C08": ("exhaustive evaluation, on every CFG path (incl. loop back edges) of every BulkSynchronous and barrier-OBIM "
             "instantiation of the driver matrix, of: push targets the queue of round+1 and pop the queue of round; the "
             "round flip is bracketed by two barrier waits; thread 0's flag update lies strictly between them and every "
@@ -99,8 +99,8 @@ CHECKS = {
             "barrier-OBIM never calls slowPop in pop, does not retarget in push, and agrees on the next level in empty() "
             "(own state before the first wait, all remote reads between the waits over all threads with the comparator, "
             "retarget after the second); the executor re-arms and waits before the next level. Monotone-operator "
-            "assumption and priority arithmetic are not decided.",
-            "barrier-interval discipline (BAR) + CFG ordering rules over clang AST facts", "4 C08"),
+            "assumption and priority arithmetic are not decided. Added: OBIM replays the master log again once masterLock is held, before it looks up, creates or advances its version.",
+            "barrier-interval discipline (BAR) + CFG ordering rules over clang AST facts; reaches-without rule from try_lock", "4 C08"),
     "C03": ("exhaustive evaluation, on every CFG path of every DoAllStealingExec instantiation of the driver matrix, of on_each "
             "and of the thread pool, of: shared range and size only under work_mutex (lock-assuming helpers called with it "
             "held); getWork/stealWork hand out a range, move the shared bound and update the size exactly on the success "
@@ -108,15 +108,15 @@ CHECKS = {
             "failed; doWork applies the function once per position; cascade/decascade agree on midpoint, children and guard, "
             "child ranges tile the parent's, done cleared before the release signal and set last after the children; region "
             "body exactly once; on_each passes (tid, numT). Exactly-once under steal interleavings beyond the lock discipline "
-            "is not decided.",
-            "lock typestate + CFG pairing / sibling-agreement rules over clang AST facts", "4 C03"),
+            "is not decided. Added: the thread pool's rows of the memory-order table (the loads that see a child's done flag acquire, the stores release), followed into helpers the flag is handed to.",
+            "lock typestate + CFG pairing / sibling-agreement rules over clang AST facts; MO role table incl. atomics passed to helpers", "4 C03"),
     "C04": ("exhaustive evaluation, on every CFG path of the ring and tree detectors and of every executor launch site, of: "
             "announcement guarded by token-held AND master AND previous-round-clean AND not-tainted; taint = token colour OR "
             "process colour read before clearing; reported work recorded before token handling; own flag cleared before "
             "forwarding, colour stored before flag, ring successor; globalTerm writers; re-arm gives the token to the master "
             "only; executors re-arm, barrier, then report; token fields atomic with release/acquire. The two-pass argument "
-            "and the liveness bound are not mechanised.",
-            "CFG guard / def-use / ordering rules + memory-order role table over clang AST facts", "4 C04"),
+            "and the liveness bound are not mechanised. Added: the tree detector clears a thread's own colour only on the branch in which the colour read in the same call is forwarded.",
+            "CFG guard / def-use / ordering rules + memory-order role table over clang AST facts; guard-edge + must-follow rule on the colour reset", "4 C04"),
     "C05": ("exhaustive evaluation, on every CFG path of wait()/_reinit() of the six barrier implementations, of: arrival "
             "state re-armed before the releasing store, release by the last arriver only, arrival announced after the "
             "children, wake-ups after the own release, phase variable flipped exactly once, dissemination rounds signal then "
